@@ -147,7 +147,9 @@ XalanNamespacesStack::XalanNamespacesStackEntry::findEntry(
             MemberFunctionType      theKeyFunction,
             MemberFunctionType      theValueFunction) const
 {
-    if (m_namespaces.empty() == false)
+    // After reset(), there can be declarations left in m_namespaces,
+    // which will be reused, but none of them is in effect...
+    if (const_iterator(m_position) != m_namespaces.begin())
     {
         const_iterator  i(m_position);
 
@@ -184,7 +186,8 @@ XalanNamespacesStack::XalanNamespacesStack(MemoryManager& theManager) :
     m_resultNamespaces(theManager, 1),
     m_stackBegin(m_resultNamespaces.begin()),
     m_stackPosition(m_stackBegin),
-    m_createNewContextStack(theManager)
+    m_createNewContextStack(theManager),
+    m_scopeStack(theManager)
 {
     // m_resultNamespaces is initialized to a size of
     // 1, so we always have a dummy entry at the
@@ -212,15 +215,7 @@ XalanNamespacesStack::addDeclaration(
     // Check to see if we need to create a new context and do so if necessary...
     if (m_createNewContextStack.back() == true)
     {
-        ++m_stackPosition;
-
-        if (m_stackPosition == m_resultNamespaces.end())
-        {
-            m_resultNamespaces.resize(m_resultNamespaces.size() + 1);
-
-            m_stackPosition = m_resultNamespaces.end() - 1;
-            m_stackBegin = m_resultNamespaces.begin();
-        }
+        newEntry();
 
         m_createNewContextStack.back() = false;
     }
@@ -262,6 +257,69 @@ XalanNamespacesStack::popContext()
     }
 
     m_createNewContextStack.pop_back();
+}
+
+
+
+void
+XalanNamespacesStack::newEntry()
+{
+    const size_type     theBeginOffset = m_stackBegin - m_resultNamespaces.begin();
+
+    ++m_stackPosition;
+
+    if (m_stackPosition == m_resultNamespaces.end())
+    {
+        m_resultNamespaces.resize(m_resultNamespaces.size() + 1);
+
+        m_stackPosition = m_resultNamespaces.end() - 1;
+        m_stackBegin = m_resultNamespaces.begin() + theBeginOffset;
+    }
+}
+
+
+
+void
+XalanNamespacesStack::pushScope()
+{
+    m_scopeStack.push_back(m_stackBegin - m_resultNamespaces.begin());
+    m_scopeStack.push_back(m_createNewContextStack.size());
+
+    // This entry plays the role of the dummy entry at the
+    // beginning for the new scope...
+    newEntry();
+
+    m_stackBegin = m_stackPosition;
+
+    m_createNewContextStack.push_back(false);
+}
+
+
+
+void
+XalanNamespacesStack::popScope()
+{
+    assert(m_scopeStack.size() >= 2);
+
+    // Any context which is still there was left behind by an exception...
+    while (m_stackPosition != m_stackBegin)
+    {
+        (*m_stackPosition).reset();
+
+        --m_stackPosition;
+    }
+
+    (*m_stackPosition).reset();
+
+    --m_stackPosition;
+
+    m_createNewContextStack.resize(m_scopeStack.back());
+
+    m_scopeStack.pop_back();
+
+    m_stackBegin = m_resultNamespaces.begin() + m_scopeStack.back();
+
+    m_scopeStack.pop_back();
 }
 
 
@@ -389,6 +447,8 @@ XalanNamespacesStack::clear()
     m_stackPosition = m_stackBegin;
 
     m_createNewContextStack.clear();
+
+    m_scopeStack.clear();
 }
 
 
